@@ -16,7 +16,8 @@ var suitesByProp = map[string][]func(*runner, *rng){
 	"C10": {suiteFragment},
 	"C11": {suiteUnfragment},
 	"C13": {suiteOptimize},
-	"C16": {suiteDur},
+	"C16": {suiteDur, suiteFracFloat},
+	"C15": {suiteLin},
 }
 
 func main() {
